@@ -314,6 +314,11 @@ class FileEnv:
         openers = ds._file_openers
         openers._load()
         self._saved = [(npyio, "open", npyio.__dict__.get("open", None)), (nl, "open", nl.__dict__.get("open", None))]
+        # any numpoly module that opens a file by itself (today only loadtxt does) gets the router as its `open`
+        for name, mod in sorted(sys.modules.items()):
+            if (name == "numpoly" or name.startswith("numpoly.")) and mod is not None and mod is not nl and getattr(mod, "__file__", "") and str(mod.__file__).endswith(".py"):
+                self._saved.append((mod, "open", mod.__dict__.get("open", None)))
+                mod.open = self.router  # type: ignore[attr-defined]
         self._saved_opener = openers._file_openers[None]
         npyio.open = self.router
         nl.open = self.router
@@ -376,6 +381,6 @@ class FileEnv:
         modes = [m for _, m, _ in self.opens]
         # numpy's own opens (one for the save, one for the load) must come through the router; how numpoly itself
         # peeks at the header is the library's business (whatever it uses reads the real file the router wrote back)
-        if modes.count("wt") < 1 or len([m for m in modes if m.startswith("r")]) < 1:
+        if len([m for m in modes if any(c in m for c in "wax")]) < 1 or len([m for m in modes if m.startswith("r")]) < 1:
             raise core.HarnessError(f"FileSeam self-probe: router saw only {self.opens}")
         self.opens = []
